@@ -204,6 +204,23 @@ Section Manifest.
     end.
 End Manifest.
 
+(** the references of a loaded trie: node references, entry references of value
+    nodes, and both in the order [walk] hands them to the callback *)
+Fixpoint self_refs (m : mnode) : list ref :=
+  match m with
+  | MNode self _ _ forks => (match self with Some r => [r] | None => [] end) ++ flat_map self_refs forks
+  end.
+Fixpoint entry_refs (m : mnode) : list ref :=
+  match m with
+  | MNode _ v e forks => (match v, e with true, ERef r => [r] | _, _ => [] end) ++ flat_map entry_refs forks
+  end.
+Fixpoint mrefs (m : mnode) : list ref :=
+  match m with
+  | MNode self v e forks =>
+      (match self with Some r => [r] | None => [] end) ++
+      (match v, e with true, ERef r => [r] | _, _ => [] end) ++ flat_map mrefs forks
+  end.
+
 Definition traverse_manifest (p : params) (st : store) (m : mnode) : lres := walk (traverse_file p st) m.
 Definition pyramid_manifest (p : params) (st : store) (m : mnode) : lres := walk (pyramid_file p st) m.
 
